@@ -94,7 +94,17 @@ pub fn gen_doc(t: &mut Tape) -> Doc {
     for _ in 0..nb {
         let e = bt + eighth(t, 0, 16000);
         breaks.push((bt, e));
+        if t.chance(15) {
+            // a break nested inside the previous one (end times not ascending in file order)
+            let s2 = bt + eighth(t, 0, 800);
+            breaks.push((s2, (s2 + eighth(t, 0, 4000)).min(e - 0.125).max(s2)));
+        }
         bt = e + 1.0 + eighth(t, 0, 40000);
+    }
+    if breaks.len() >= 2 && t.chance(12) {
+        // break lines out of file order
+        let (i, j) = (t.below(breaks.len()), t.below(breaks.len()));
+        breaks.swap(i, j);
     }
     let mut objs = vec![];
     let nobj = t.below(9);
